@@ -6,7 +6,7 @@ from typing import Dict, List, Optional, Set, Tuple
 
 from engine import boolalg
 from engine.cfg import CFG, ENTRY, EXIT, RAISE
-from engine.dataflow import FRESH, Origins, ReachingDefs, inplace_stores
+from engine.dataflow import FRESH, Origins, ReachingDefs, inplace_stores, own_exprs
 from engine.index import AnalysisError, FuncInfo, calls_in, const_str, kwarg, unparse, walk_no_nested
 from engine.pdfacts import FACTS
 from rules.common import raise_class
@@ -174,6 +174,84 @@ def _check_window(chk, r1, r2, r3, fname: str, side: str, err_name: str):
                    + (msgs or f"some derivation of the returned frame lacks the `{pv.hard_param}` cut"),
                    sample={"function": fname, "hard_bound": pv.hard_param, "problems": [m for _s, m in pv.problems][:4]})
         frames.append(fe)
+    # R20.1c non-interference: the selection is a function of the bounded part of the input only.  Every expression in the
+    # backward slice (data *and* control dependences) of the returned frame may read `data` only through a slice that
+    # applies the hard bound; `data.index.max()`, `len(data)`, ... of the whole series may feed the warnings, never the window.
+    def _unbounded_reads(e):
+        parents = {}
+        for n in ast.walk(e):
+            for c in ast.iter_child_nodes(n):
+                parents[id(c)] = n
+        out = []
+        for n in ast.walk(e):
+            if isinstance(n, ast.Name) and n.id == "data" and isinstance(n.ctx, ast.Load):
+                p = parents.get(id(n))
+                if isinstance(p, ast.Attribute) and p.attr == "loc" and p.value is n:
+                    n2, p = p, parents.get(id(p))
+                else:
+                    n2 = n
+                if isinstance(p, ast.Subscript) and p.value is n2 and isinstance(p.slice, ast.Slice):
+                    hard_e = p.slice.upper if side == "baseline" else p.slice.lower
+                    if hard_e is not None:
+                        continue
+                out.append(p if p is not None else n)
+        return out
+
+    facts = cfg.must_facts()
+    seen_st: Set[int] = set()
+    visited = 0
+    work: List[Tuple[ast.AST, ast.AST]] = [(rt, fe) for rt, fe in zip(rets, frames)]
+    flagged: Set[str] = set()
+    while work:
+        at, e = work.pop()
+        for bad in _unbounded_reads(e):
+            t = unparse(bad)[:70]
+            if t not in flagged:
+                flagged.add(t)
+                r1.require(False, f"{fi.key}|window-depends-on-unbounded-input:{t}", fi.where(at),
+                           f"{fname}: `{t}` reads the whole input (not cut at `{pv.hard_param}`) and flows, through data or control dependence, into the returned window: "
+                           f"rows on the other side of the intervention decide which rows are selected", sample={"function": fname, "expression": t, "at": unparse(at)[:80]})
+        for n in ast.walk(e):
+            if isinstance(n, ast.Name) and isinstance(n.ctx, ast.Load):
+                for d in rd.reaching(at, n.id):
+                    ds = rd.def_stmt(d)
+                    if ds is None or id(ds) in seen_st:
+                        continue
+                    seen_st.add(id(ds))
+                    visited += 1
+                    for oe in own_exprs(ds):
+                        work.append((ds, oe))
+                    for f_ in facts.get(id(ds), frozenset()):
+                        ts = cfg.stmt_of.get(f_.test_id)
+                        if ts is not None and not isinstance(ts, (ast.For, ast.AsyncFor)):
+                            work.append((ts, cfg.tests[f_.test_id]))
+    # control dependences of the returns themselves (early raises)
+    for rt in rets:
+        for f_ in facts.get(id(rt), frozenset()):
+            ts = cfg.stmt_of.get(f_.test_id)
+            if ts is not None and not isinstance(ts, (ast.For, ast.AsyncFor)) and id(ts) not in seen_st:
+                seen_st.add(id(ts))
+                w2 = [(ts, cfg.tests[f_.test_id])]
+                while w2:
+                    at, e = w2.pop()
+                    for bad in _unbounded_reads(e):
+                        t = unparse(bad)[:70]
+                        if t not in flagged:
+                            flagged.add(t)
+                            r1.require(False, f"{fi.key}|window-depends-on-unbounded-input:{t}", fi.where(at), f"{fname}: `{t}` reads the whole input and decides whether the window is returned")
+                    for n in ast.walk(e):
+                        if isinstance(n, ast.Name) and isinstance(n.ctx, ast.Load):
+                            for d in rd.reaching(at, n.id):
+                                ds = rd.def_stmt(d)
+                                if ds is not None and id(ds) not in seen_st:
+                                    seen_st.add(id(ds))
+                                    visited += 1
+                                    for oe in own_exprs(ds):
+                                        w2.append((ds, oe))
+    if visited < 6:
+        raise AnalysisError(f"{fname}: the backward slice of the returned frame visited only {visited} definitions (expected the slicing pipeline)")
+    r1.inst(f"{fi.key}|non-interference-slice")
+    chk.note(f"{fname}: non-interference slice visited {visited} definitions; unbounded reads of the input in the slice: {sorted(flagged)}") if hasattr(chk, "note") else None
     # no row source other than `data`
     for c in calls_in(fi.node):
         if unparse(c.func) in ("pd.concat", "pd.merge") or (isinstance(c.func, ast.Attribute) and c.func.attr in ("append", "join", "merge", "combine_first", "reindex") and
